@@ -44,7 +44,34 @@ LetterSweep == {[Config(o, "", "narrow", hp, v, FALSE, 2, nout, nann, 2, "tight"
                    !.ins = <<[expr |-> first, vals |-> "<50, >=50"], [expr |-> "b", vals |-> "<50, >=50"]>>]
                 : o \in {"rows", "cols"}, hp \in {"U", "C"}, v \in BOOLEAN, nout \in 1..2, nann \in 0..1, first \in {"a", "p", "c", "u", "o", "f", "r", "x"}}
 
+\* neighbouring rules with equal entries, drawn as ONE merged cell (style "merged"): next to the double line on the input
+\* side only, on the output side only, on both sides at once, runs of three rules, every clause at once
+MIn1 == <<"<10", "<10", ">=10", ">=10">>
+MEntry(p, r, side) ==          \* side 1: the last input clause, side 2: the first output clause
+  LET own == IF side = 1 THEN EntryCycle[r + 1] ELSE OutEntry(r, 1)
+      g12 == IF side = 1 THEN "[5..15]" ELSE "77"
+      g234 == IF side = 1 THEN "not(7)" ELSE "88" IN
+  CASE p = 1 -> (IF side = 1 /\ r \in {1, 2} THEN g12 ELSE own)
+    [] p = 2 -> (IF side = 2 /\ r \in {1, 2} THEN g12 ELSE own)
+    [] p = 3 -> (IF r \in {1, 2} THEN g12 ELSE own)
+    [] p = 4 -> (IF r \in {2, 3, 4} THEN g234 ELSE own)
+    [] OTHER -> (IF r \in {3, 4} THEN g12 ELSE own)
+MergedSweep == {[Config(o, "", "narrow", hp, FALSE, FALSE, 2, nout, nann, 4, "merged") EXCEPT
+                   !.rules = [r \in 1..4 |-> [@[r] EXCEPT !.ins = <<MIn1[r], MEntry(p, r, 1)>>,
+                                                            !.outs = [j \in 1..nout |-> IF j = 1 THEN MEntry(p, r, 2) ELSE IF p = 5 /\ r \in {3, 4} THEN "99" ELSE OutEntry(r, j)]]]]
+                : o \in {"rows", "cols"}, hp \in {"F", "C"}, nout \in 1..2, nann \in 0..1, p \in 1..5}
+\* output entries that read like rule numbers: the last (first, every) rule's entries read 1, 2, 3; the entries of a
+\* clause read 1, 2, 3 down the rules
+NumPat(p, r, j) == CASE p = 1 -> (IF r = 3 THEN Dig(j) ELSE Dig(9 - r))
+                     [] p = 2 -> Dig(r)
+                     [] p = 3 -> (IF r = 1 THEN Dig(j) ELSE Dig(5 + r))
+                     [] OTHER -> Dig(j)
+NumLikeSweep == {[Config(o, "", "narrow", hp, FALSE, FALSE, 1, nout, nann, 3, st) EXCEPT
+                    !.rules = [r \in 1..3 |-> [@[r] EXCEPT !.ins = <<IF r = 1 THEN ">=90" ELSE IF r = 2 THEN ">=50" ELSE "-">>,
+                                                             !.outs = [j \in 1..nout |-> NumPat(p, r, j)]]]]
+                 : o \in {"rows", "cols"}, hp \in {"F", "U"}, nout \in 1..3, nann \in 0..1, p \in 1..4, st \in {"tight", "wide"}}
+
 VARIABLE c
-Init == c \in Layouts \cup MarkerSweep \cup TightMulti \cup LetterSweep /\ PrintT(<<"CASE", ToJson(c)>>)
+Init == c \in Layouts \cup MarkerSweep \cup TightMulti \cup LetterSweep \cup MergedSweep \cup NumLikeSweep /\ PrintT(<<"CASE", ToJson(c)>>)
 Next == FALSE /\ c' = c
 =============================================================================
